@@ -172,6 +172,7 @@ type childCfg struct {
 	filters string
 	pool    int
 	longrun string // "objqueuemax,async-invoke-timeout,n[,seed]": long-run child (longrun.go)
+	history string // "variant,steps[,seed]": filter-registration history child (history.go)
 }
 
 // ChildConfigs of a tier: every filter configuration on the default server, plus worker-pool
@@ -179,19 +180,25 @@ type childCfg struct {
 func ChildConfigs(thorough bool) []childCfg {
 	var out []childCfg
 	for _, f := range FilterConfigs(thorough) {
-		out = append(out, childCfg{f, 0, ""})
+		out = append(out, childCfg{f, 0, "", ""})
 	}
-	out = append(out, childCfg{"c0.0.0.0-s0.0.0.0", 1, ""}, childCfg{"c0.2.0.0-s0.2.0.0", 2, ""})
+	out = append(out, childCfg{"c0.0.0.0-s0.0.0.0", 1, "", ""}, childCfg{"c0.2.0.0-s0.2.0.0", 2, "", ""})
 	if thorough {
-		out = append(out, childCfg{"c1.0.0.0-s1.0.0.0", 2, ""}, childCfg{"c0.0.2.1-s0.0.1.2", 1, ""}, childCfg{"c0.3.2.2-s0.1.3.3", 2, ""}, childCfg{"c0.2.0.0-s0.2.0.0", 1, ""})
+		out = append(out, childCfg{"c1.0.0.0-s1.0.0.0", 2, "", ""}, childCfg{"c0.0.2.1-s0.0.1.2", 1, "", ""}, childCfg{"c0.3.2.2-s0.1.3.3", 2, "", ""}, childCfg{"c0.2.0.0-s0.2.0.0", 1, "", ""})
 	}
 	// long-run children: small objqueuemax, varied async-invoke-timeout, N sequential calls on one proxy
-	out = append(out, childCfg{"c0.0.0.0-s0.0.0.0", 0, "40,3000,500"}, childCfg{"c0.2.0.0-s0.2.0.0", 0, "25,1200,350"})
+	out = append(out, childCfg{"c0.0.0.0-s0.0.0.0", 0, "40,3000,500", ""}, childCfg{"c0.2.0.0-s0.2.0.0", 0, "25,1200,350", ""})
 	if thorough {
 		// 2^16+1 calls and more (16-bit wraps); the default objqueuemax with a stream longer than it
 		// would take 10^5 one-way calls: covered by the small limits
-		out = append(out, childCfg{"c0.0.0.0-s0.0.0.0", 0, "40,3000,70000"}, childCfg{"c1.0.0.0-s1.0.0.0", 0, "7,800,3000"},
-			childCfg{"c0.0.2.1-s0.0.1.2", 0, "100,5000,4000"}, childCfg{"c0.0.0.0-s0.0.0.0", 2, "16,1500,2500"})
+		out = append(out, childCfg{"c0.0.0.0-s0.0.0.0", 0, "40,3000,70000", ""}, childCfg{"c1.0.0.0-s1.0.0.0", 0, "7,800,3000", ""},
+			childCfg{"c0.0.2.1-s0.0.1.2", 0, "100,5000,4000", ""}, childCfg{"c0.0.0.0-s0.0.0.0", 2, "16,1500,2500", ""})
+	}
+	// filter-registration histories: the process starts without filters and registers them between calls
+	out = append(out, childCfg{"c0.0.0.0-s0.0.0.0", 0, "", "staged,40"}, childCfg{"c0.0.0.0-s0.0.0.0", 0, "", "mwfirst,40"})
+	if thorough {
+		out = append(out, childCfg{"c0.0.0.0-s0.0.0.0", 0, "", "random,60"}, childCfg{"c0.0.0.0-s0.0.0.0", 0, "", "random,25"},
+			childCfg{"c0.0.0.0-s0.0.0.0", 0, "", "staged,40"}, childCfg{"c0.0.0.0-s0.0.0.0", 2, "", "mwfirst,40"}, childCfg{"c0.0.0.0-s0.0.0.0", 0, "", "random,40"})
 	}
 	return out
 }
@@ -282,17 +289,20 @@ func Launch() {
 	}
 	cfgs := ChildConfigs(o.Thorough())
 	if rcase != nil {
-		cfgs = []childCfg{{rcase.Filters, rcase.Pool, ""}}
+		cfgs = []childCfg{{rcase.Filters, rcase.Pool, "", ""}}
 		if rcase.LongRun != nil {
 			cfgs[0].longrun = rcase.LongRun.String()
+		}
+		if rcase.History != nil {
+			cfgs[0].filters, cfgs[0].history = "c0.0.0.0-s0.0.0.0", rcase.History.String()
 		}
 	}
 	var wg sync.WaitGroup
 	var mu sync.Mutex
-	sem := make(chan struct{}, 10)
+	sem := make(chan struct{}, 12)
 	only := os.Getenv("VERIF_E2E_ONLY") // debugging aid: "<filters>:<pool>" runs just that child (same seed as in a full run)
 	for i, fc := range cfgs {
-		if only != "" && only != fmt.Sprintf("%s:%d", fc.filters, fc.pool) && only != fc.longrun {
+		if only != "" && only != fmt.Sprintf("%s:%d", fc.filters, fc.pool) && !(only == fc.longrun && only != "") && !(only == fc.history && only != "") {
 			continue
 		}
 		wg.Add(1)
@@ -303,7 +313,7 @@ func Launch() {
 			outFile := filepath.Join(tmp, fmt.Sprintf("res%d.json", i))
 			args := []string{"-tier", o.Tier, "-seed", fmt.Sprint(o.Seed + int64(i)), "-model", o.Model, "-out", outFile}
 			env := append(os.Environ(), "VERIF_E2E_FILTERS="+fc.filters, fmt.Sprintf("VERIF_E2E_POOL=%d", fc.pool),
-				fmt.Sprintf("VERIF_E2E_GENSEED=%d", genSeed), "VERIF_E2E_GENTIER="+genTier, "VERIF_E2E_LONGRUN="+fc.longrun)
+				fmt.Sprintf("VERIF_E2E_GENSEED=%d", genSeed), "VERIF_E2E_GENTIER="+genTier, "VERIF_E2E_LONGRUN="+fc.longrun, "VERIF_E2E_HISTORY="+fc.history)
 			if rcase != nil && (rcase.Scenario != nil || rcase.Large != nil) {
 				env = append(env, "VERIF_E2E_REPLAY="+o.Replay)
 			}
@@ -338,6 +348,7 @@ func Launch() {
 		"plus servers with a worker pool (maxroutine 1 and 2) where scripted slow calls hold every worker while one-way and two-way calls with their own client timeouts (shorter or longer than the wait) " +
 		"queue up; a large phase where 8-32 concurrent callers share one connection of a fixed interface (byte vectors, strings, nested vectors, struct) with request/response payloads of 63 KiB - 1 MiB that are functions of a per-call tag (recorded as digests); " +
 		"long-run processes (client objqueuemax 7-100, own async-invoke-timeout) with 350-70000 strictly sequential calls on one proxy mixing one-way, two-way, erroring and timed-out calls (no call may be refused, every one-way call delivered once); " +
+		"filter-registration histories (processes that start without filters and register single/pre/post/middleware filters on both sides between sequential calls; each call judged against the registration state when it was issued); " +
 		"every byte between proxy and server passes a frame-parsing relay whose record of request and response frames is judged at the end (no reply to a one-way request, at most one reply per request, no unsolicited reply); " +
 		"non-trivial = distinct (filters, function, mode, seed)"
 	if res.HarnessError != "" {
